@@ -51,6 +51,13 @@ def gen_table(rng, ncols=None, nrows=None, shape=None, exotic_names=True):
     if shape is not None:
         t["shape"] = list(shape)
         t["file"] = "in.nc"
+        if rng.random() < 0.3:
+            # cells the file itself marks missing (written masked: they hold the variable's fill value on disk), next to
+            # whatever the MissingValue argument of a read declares missing
+            for c in cols.values():
+                idx = [j for j in range(nrows) if rng.random() < 0.2]
+                if idx and len(idx) <= nrows - 2:
+                    c["filemask"] = idx
     return t
 
 
@@ -98,7 +105,13 @@ def write_table_nc(table, path):
             dims.append(nm)
         for name, c in table["cols"].items():
             v = ds.createVariable(name, "i8" if c["integer"] else "f8", tuple(dims))
-            v[:] = numpy.array(c["data"], dtype="int64" if c["integer"] else "float64").reshape(shape)
+            data = numpy.array(c["data"], dtype="int64" if c["integer"] else "float64")
+            if c.get("filemask"):
+                m = numpy.zeros(len(c["data"]), dtype=bool)
+                m[c["filemask"]] = True
+                v[:] = numpy.ma.array(data, mask=m).reshape(shape)
+            else:
+                v[:] = data.reshape(shape)
     return path
 
 
